@@ -1,0 +1,10 @@
+//go:build verif
+
+package ios
+
+// Export for the verification harness of property C20. Added file only.
+
+// VerifC20RemoveBanner calls removeBanner on a copy of data.
+func VerifC20RemoveBanner(data []byte) []byte {
+	return removeBanner(append([]byte{}, data...))
+}
